@@ -73,6 +73,12 @@ type H struct {
 	// statistics
 	readsAfterLaterWrites, itersAcrossWrites, viewsOpened int
 	dirtySince                                            map[int]int
+	// block plans (flag -plan, stage B / seed C09-b addition)
+	planOn     bool
+	plan       [nStores]int // 0 untouched | 1 delete-only | 2 set-only | 3 mixed, for the block being built
+	present    [nStores]map[string]bool
+	deleted    [nStores][][]byte // keys deleted in recent blocks (probed through every cached height)
+	sweepReads int
 }
 
 func keyHex(b []byte) string {
@@ -440,6 +446,115 @@ func (h *H) randomViewRead() {
 	}
 }
 
+// ---------------------------------------------------------------- block plans and cache-window sweeps
+
+// newPlan draws, for the block about to be built, what may happen to each substore: nothing at all,
+// deletions only, sets only, or both. Delete-only blocks and blocks that touch only the other
+// substore are what a per-store snapshot cache must get right.
+func (h *H) newPlan() {
+	for i := 0; i < nStores; i++ {
+		x := h.r.Intn(100)
+		switch {
+		case x < 25:
+			h.plan[i] = 0
+		case x < 55:
+			h.plan[i] = 1
+		case x < 70:
+			h.plan[i] = 2
+		default:
+			h.plan[i] = 3
+		}
+		if h.plan[i] == 1 && len(h.present[i]) == 0 {
+			h.plan[i] = 2
+		}
+	}
+}
+
+func (h *H) storesWith(a, b int) []int {
+	var out []int
+	for i := 0; i < nStores; i++ {
+		if h.plan[i] == a || h.plan[i] == b {
+			out = append(out, i)
+		}
+	}
+	return out
+}
+
+func (h *H) presentKey(i int) []byte {
+	ks := make([]string, 0, len(h.present[i]))
+	for k := range h.present[i] {
+		ks = append(ks, k)
+	}
+	sort.Strings(ks)
+	return []byte(ks[h.r.Intn(len(ks))])
+}
+
+func (h *H) planSet() {
+	c := h.storesWith(2, 3)
+	if len(c) == 0 {
+		h.planDel()
+		return
+	}
+	i := c[h.r.Intn(len(c))]
+	k := h.key()
+	v := h.r.Bytes(1 + h.r.Intn(3))
+	h.doSet(i, k, v)
+	h.present[i][string(k)] = true
+}
+
+func (h *H) planDel() {
+	c := h.storesWith(1, 3)
+	if len(c) == 0 {
+		return
+	}
+	i := c[h.r.Intn(len(c))]
+	k := h.key()
+	if len(h.present[i]) > 0 && h.r.Chance(4, 5) {
+		k = h.presentKey(i)
+	}
+	h.doDel(i, k)
+	if h.present[i][string(k)] {
+		delete(h.present[i], string(k))
+		h.deleted[i] = append(h.deleted[i], k)
+		if len(h.deleted[i]) > 4 {
+			h.deleted[i] = h.deleted[i][1:]
+		}
+	}
+}
+
+// windowSweep: after a commit, read EVERY height that a 12-deep height cache can still serve (and
+// the one just below the window) through a fresh historical view — LoadLazyVersion,
+// CacheMultiStoreWithVersion, PrevCtx in turn, plus a height query — completely: full iteration of
+// every substore and a Get of each recently deleted key. The views are dropped again.
+func (h *H) windowSweep() {
+	lo := h.height - 13
+	if lo < 1 {
+		lo = 1
+	}
+	for ht := lo; ht < h.height; ht++ {
+		kind := []string{"L", "C", "P"}[int(ht+h.height)%3]
+		before := len(h.views)
+		h.openView(kind, ht)
+		if len(h.views) == before {
+			continue
+		}
+		v := h.views[len(h.views)-1]
+		for i := 0; i < nStores; i++ {
+			h.vIter(v, i, nil, nil, (ht+int64(i))%2 == 0)
+			for _, k := range h.deleted[i] {
+				h.vGet(v, i, k)
+				h.sweepReads++
+			}
+			h.sweepReads++
+		}
+		if len(h.deleted[0]) > 0 && ht%4 == 0 {
+			h.query(0, ht, h.deleted[0][len(h.deleted[0])-1])
+		}
+		h.views = h.views[:len(h.views)-1]
+		h.t.Line("drop", true, "drop v%d => ok", v.id)
+	}
+}
+
 // midBlock (stage B addition): right after a write, open a view of the latest committed height through
 // one of the lazy-load paths (LoadLazyVersion / CacheMultiStoreWithVersion / PrevCtx) or a height query,
 // and read every store through it completely.
@@ -487,10 +602,15 @@ func main() {
 	iavlCache := flag.Int64("cache", 0, "iavl node cache size (0 = package default)")
 	nkeys := flag.Int("keys", 24, "key space size")
 	ctxCache := flag.Int("ctxcache", 5, "size of sdk.GlobalCtxCache (PrevCtx contexts)")
+	planOn := flag.Bool("plan", false, "(seed C09-b addition) per-block plans for every substore (untouched | delete-only | set-only | mixed) and, after every commit, a complete read of every height inside the height-cache window through fresh historical views")
 	mid := flag.Int("mid", 0, "(stage B addition) percent of writes followed at once by a historical view of the LATEST committed height that is read out completely (mid-block read of the last height while the working stores are dirty)")
 	flag.Parse()
 
-	h := &H{r: gen.New(*seed), t: gen.NewTrace(*out), dirtySince: map[int]int{}}
+	h := &H{r: gen.New(*seed), t: gen.NewTrace(*out), dirtySince: map[int]int{}, planOn: *planOn}
+	for i := 0; i < nStores; i++ {
+		h.present[i] = map[string]bool{}
+		h.plan[i] = 3
+	}
 	db := dbm.NewMemDB()
 	h.rs = rootmulti.NewStore(db, *cacheOn, *iavlCache)
 	for i := 0; i < nStores; i++ {
@@ -534,6 +654,20 @@ func main() {
 	h.t.Line("config", false, "config hcache %d => ok", hc)
 	for step := 0; step < *n; step++ {
 		x := h.r.Intn(100)
+		if h.planOn && x < 53 {
+			// planned blocks: writes obey the block's plan; every commit is followed by a window sweep
+			switch {
+			case x < 30:
+				h.planSet()
+			case x < 45:
+				h.planDel()
+			default:
+				h.doCommit()
+				h.windowSweep()
+				h.newPlan()
+			}
+			continue
+		}
 		switch {
 		case x < 30:
 			v := h.r.Bytes(1 + h.r.Intn(3))
@@ -588,6 +722,6 @@ func main() {
 	h.fullViewCheck()
 	h.t.Close(map[string]interface{}{
 		"hcache": *cacheOn, "height": h.height, "views_opened": h.viewsOpened,
-		"view_reads_after_later_writes": h.readsAfterLaterWrites, "iterator_advances_across_writes": h.itersAcrossWrites,
+		"view_reads_after_later_writes": h.readsAfterLaterWrites, "window_sweep_reads": h.sweepReads, "iterator_advances_across_writes": h.itersAcrossWrites,
 	})
 }
